@@ -177,7 +177,10 @@ def _pow_partial(objs, numeric: set, submap=None, rounds=1) -> bool:
 @st.composite
 def _expr_value_case(draw, funcs=False):
     cplx = draw(st.integers(0, 5)) == 0
-    cyc = draw(st.integers(0, 39 if funcs else 11)) == 0  # (a cycle through sin/exp costs sympy seconds per case)
+    # No deliberate cycle together with sin/cos/exp: ParamResolver only notices a loop when the *same* key comes back; behind a
+    # function every substitution step yields a new, larger expression, so a cycle like a -> 2*b, b -> a*a + ... is "detected"
+    # only by Python's own stack limit after minutes (observed 30 s .. >15 min per case).  Loops are covered by expr_value.
+    cyc = (not funcs) and draw(st.integers(0, 11)) == 0
     vals = draw(CG.resolver_tables(chains=True, cycle=cyc, complex_ok=cplx, f32=True))
     if cplx and not any(v[0] in ("c", "npc") for v in vals.values()):
         num = [n for n, v in vals.items() if v[0] not in ("expr", "str")]
